@@ -63,7 +63,7 @@ def main():
       items.append((pid, os.path.basename(d), p, demo if os.path.exists(demo) else None))
     resfile = os.path.join(ROOT, "seeded", "RESULTS.json")
   if a.only:
-    items = [i for i in items if i[0] == a.only or a.only in i[1]]
+    items = [i for i in items if i[0] == a.only or a.only in i[1] or a.only in "%s/%s" % (i[0], i[1])]
   try:
     results = json.load(open(resfile))
   except Exception:
